@@ -12,7 +12,10 @@ RULE = ("S->C: WalletMsg_Gen (TLC, exhaustive over version x message count {0,1,
         "from SendMessage; the library's VerifySignature / MessageV5VerifySignature / Decode* / ExtractRawMessages view of its own payload); "
         "wallet v5r1 bodies with extended actions (add / remove extension, signature auth; TLC cases none/1/2/3 actions x 0/1/3 messages x ext/int "
         "and random lists) through walletV5R1.CreateSignedMsgBodyCell, judged as Body events and, wrapped into an external message as "
-        "RawSendV2 does, as Send events (in-place first action, reference chain, library's MessageV5 decoder returns the same list); Flips events: every bit of the signed root cell and 64 sampled deeper bits changed one at a time with the library's verdict; the "
+        "RawSendV2 does, as Send events (in-place first action, reference chain, library's MessageV5 decoder returns the same list); SimpleTransfer grid (amount byte length 0..8: 0, 2^8k-1, 2^8k x comment length 0..140 with every "
+        "length 60..80 and 120..130) through CreateMessageBody and Wallet.Send on every version: built, not refused, decodes to the same "
+        "destination / amount / bounce / comment wherever the comment is placed; the library's verify / extract / decode also as sequences on "
+        "ONE cell object in both orders; Flips events: every bit of the signed root cell and 64 sampled deeper bits changed one at a time with the library's verdict; the "
         "captured wallet messages of the repository's tests as Fixture events. WalletMsg_Trace (TLC) judges every event: BoC parsed by "
         "Boc!Parse, external message and internal messages by block.tlb, body by the version's documented layout (Extract), "
         "EdVerify(pk, hash(SignedPart), sig) with pk re-derived from the seed, not under a second key, each flipped body no longer "
@@ -41,9 +44,15 @@ def keys_of(e, clauses):
     clauses = list(clauses or ["unjudged"])
     if "extract" in clauses:          # the body is not the prescribed layout: what the library's decoders make of it is a consequence
         clauses = [c for c in clauses if c not in ("lib:decode", "lib:extract")]
+    if {"lib:decode", "lib:extract", "lib:verify", "extract"} & set(clauses):   # already wrong on a fresh cell: the sequences add nothing
+        clauses = [c for c in clauses if c != "lib:seq"] or clauses
     for c in clauses:
         if fam == "highload" and n == 0 and c in ("extract", "lib:decode", "lib:extract"):
             key = "C14:highload:zero_messages"
+        elif c == "lib:seq":           # a sequence of library operations on one cell object: by wallet family
+            key = "C14:%s:lib:seq" % fam
+        elif e.get("grid") and c in ("built", "sent", "msgs"):   # SimpleTransfer amount-width x comment-length grid: the transfer itself
+            key = "C14:simple_transfer:%s" % c
         elif e.get("xreq"):            # wallet v5r1 with extended actions, built through CreateSignedMsgBodyCell (Body and Send alike)
             key = "C14:%s:%s:xactions:%s" % (fam, e.get("via", k), c)
         else:
@@ -181,6 +190,7 @@ def run(ck):
     fixtures = 0
     nflips = 0
     xaccepted, xrecorded, recorded_by_ver = 0, 0, {}
+    ngrid = ngrid_send = nseq = 0
     all_rejected = []
     v5rev_total = 0
     for i, (tp, (rejected, (v5b, v5rev))) in enumerate(zip(traces, results)):
@@ -193,6 +203,11 @@ def run(ck):
             if k == "End":
                 continue
             kinds[k] = kinds.get(k, 0) + 1
+            if k in ("Body", "Send") and e.get("grid"):
+                ngrid += len(e.get("req", [])) if k == "Body" else 0
+                ngrid_send += k == "Send"
+            if k == "Send" and e.get("lib", {}).get("seq1"):
+                nseq += 1
             if k in ("Body", "Send") and e.get("xreq"):
                 xrecorded += 1
                 xaccepted += ln not in bad_lines
@@ -228,7 +243,9 @@ def run(ck):
                 what = "panic in %s: %s" % (e.get("where"), e.get("panic"))
             ck.report(key, what + " [failing input: %s n=%s seqno=%s valid_until=%s via %s]" % (e.get("ver"), e.get("n"), e.get("seqno"), e.get("vu"),
                                                                                        e.get("via") or ("CreateMessageBody" if k == "Body" else "RawSend")) + (
-                      " extended actions %s" % [x["kind"] for x in e["xreq"]] if e.get("xreq") else ""),
+                      " extended actions %s" % [x["kind"] for x in e["xreq"]] if e.get("xreq") else "") + (
+                      " SimpleTransfer (amount, comment bytes): %s; error: %s" % ([(r_["amount"], len(r_["comment"]) // 2) for r_ in e.get("req", [])] or e.get("reqerr"),
+                                                                                 e.get("errtext")) if e.get("grid") else ""),
                       dict(origin, clauses=clauses, event=slim(e)))
     # vacuity: every TLC case came back, every kind of event was recorded, every version has accepted events
     if vec_seen != set(range(len(vecs))):
@@ -238,6 +255,9 @@ def run(ck):
             raise Infra("no %s events were recorded" % k)
     if fixtures < 6:
         raise Infra("only %d captured fixtures found in wallet/*_test.go" % fixtures)
+    if ngrid < 800 or not ngrid_send or not nseq:
+        raise Infra("SimpleTransfer grid / same-cell sequences missing from the recording: %d transfers, %d Send(), %d sequences" % (ngrid, ngrid_send, nseq))
+    ck.extra.update({"simple_transfer_grid_transfers": ngrid, "simple_transfer_grid_via_Send": ngrid_send, "same_cell_sequences": 2 * nseq})
     if not xrecorded:
         raise Infra("no event with wallet v5 extended actions was recorded")
     ck.extra["v5r1_extended_action_events_accepted"] = xaccepted
@@ -300,19 +320,26 @@ def canaries(ck, traces):
     c15 = copy.deepcopy(sendx); c15["xreq"][0]["kind"] = "remove" if c15["xreq"][0]["kind"] == "add" else "add"   # add <-> remove extension
     c16 = copy.deepcopy(sendx); c16["lib"]["xacts"] = c16["lib"]["xacts"][1:]                                  # library decoder lost the first extended action
     c17 = copy.deepcopy(sendx); a = c17["xreq"][0]["addr"]; c17["xreq"][0]["addr"] = a[:-1] + ("0" if a[-1] != "0" else "1")   # another extension address
+    gridb = pick(lambda e: e["k"] == "Body" and e.get("grid") and e["err"] == "" and any(len(r_["comment"]) >= 120 for r_ in e["req"]), "grid Body")
+    c18 = copy.deepcopy(send); c18["lib"]["seq1"][2]["res"] = "rej"                                            # decode after verify + extract on the same cell failed
+    c19 = copy.deepcopy(send); c19["lib"]["seq2"][3]["modes"] = [(m + 1) % 256 for m in c19["lib"]["seq2"][3]["modes"]]   # second decode on the same cell returned other modes
+    c20 = copy.deepcopy(gridb); j = next(i for i, r_ in enumerate(c20["req"]) if len(r_["comment"]) >= 120)
+    c20["req"][j]["comment"] = c20["req"][j]["comment"][:-2] + ("21" if c20["req"][j]["comment"][-2:] != "21" else "22")   # last comment byte differs
     c11 = copy.deepcopy(body5); c11["req"][0], c11["req"][1] = c11["req"][1], c11["req"][0]                    # v5: two of >= 3 messages swapped
     c12 = copy.deepcopy(send5); c12["modes"][0], c12["modes"][1] = c12["modes"][1], c12["modes"][0]            # v5: modes detached from their messages
     c13 = copy.deepcopy(send5); c13["lib"]["xmodes"].reverse(); c13["lib"]["xrows"].reverse()                  # v5: library decoder returned the reverse
-    cs = [c1, c2, c3, c4, c5, c6, c7, c8, c9, c10, c11, c12, c13, c14_, c15, c16, c17]
+    cs = [c1, c2, c3, c4, c5, c6, c7, c8, c9, c10, c11, c12, c13, c14_, c15, c16, c17, c18, c19, c20]
     p = os.path.join(ck.work, "canary.ndjson")
-    vlib.write_ndjson(p, cs + [body, send, over, flips, body5, send5, bodyx, sendx, {"k": "End"}])
+    vlib.write_ndjson(p, cs + [body, send, over, flips, body5, send5, bodyx, sendx, gridb, {"k": "End"}])
     rejected, _ = judge(ck, p, "canary", account=False)
     got = {ln: cl for ln, _, cl in rejected}
     names = ["signature bit changed", "requested messages swapped", "requested seqno changed", "requested amount changed", "requested mode changed",
              "keys exchanged", "library verdict for the second key = ok", "over-limit send not refused", "library accepted a flipped body",
              "requested expiry changed", "v5: two messages of a >= 3 message list swapped", "v5: modes swapped between two messages",
              "v5: library decoder returns the reversed list", "v5r1: two extended actions swapped", "v5r1: add / remove extension exchanged",
-             "v5r1: library decoder lost an extended action", "v5r1: extension address changed"]
+             "v5r1: library decoder lost an extended action", "v5r1: extension address changed",
+             "same-cell sequence: decode after verify failed", "same-cell sequence: second decode returned other modes",
+             "SimpleTransfer grid: last comment byte changed"]
     for i, nm in enumerate(names, 1):
         ck.canary("C->S: " + nm, i in got)
     ck.canary("C->S: the unmodified events are accepted", all(ln <= len(cs) for ln in got))
